@@ -517,7 +517,10 @@ VSsetname(int32       vkey, /* IN: Vdata key */
 
     vs->marked = TRUE; /* mark vdata as being modified */
 
-    if (curr_len < slen)
+    /* A header of another size is written as a new element: written over the
+       old, longer one it would be followed by stale bytes, and the version
+       fields are read from the end of the element */
+    if (curr_len != slen)
         vs->new_h_sz = TRUE; /* mark vdata header size being changed */
 
 done:
@@ -577,7 +580,10 @@ VSsetclass(int32       vkey, /* IN: vdata key */
 
     vs->marked = TRUE; /* mark vdata as being modified */
 
-    if (curr_len < slen)
+    /* A header of another size is written as a new element: written over the
+       old, longer one it would be followed by stale bytes, and the version
+       fields are read from the end of the element */
+    if (curr_len != slen)
         vs->new_h_sz = TRUE; /* mark vdata header size being changed */
 
 done:
